@@ -7,12 +7,23 @@ import pyvc.z as Z
 MAP = "cobald.daemon.config.mapping"
 
 
+DIGRES = z3.Function("digest_result", Z.Val, Z.Val, Z.Val)
+
+
+def kept(c, cfg, plugins, content, j):
+    """what the statement says about results: the NON-None result of plugin j is kept under the plugin (falsy results included)"""
+    r = DIGRES(plugins[j].digest.t, cfg[plugins[j].section].t)
+    return c.Implies(c.Not(Z.is_none(r)), c.And(content.has(plugins[j]), content[plugins[j]].t == r))
+
+
 def _digest_contract():
     def emits(c, ctx, self, section):
         ctx.emit("digest", self, section)
 
-    return amethod("digest", {"self": None, "section": ANYT}, doc="a section digest: an arbitrary callable; one `digest` event; any result; what it raises propagates",
-                   result=ANYT, emits=emits, has_events=True, raises={"BaseException": lambda c, exc, **k: True})
+    return amethod("digest", {"self": None, "section": ANYT}, doc="a section digest: an arbitrary callable; one `digest` event; any result (named digest_result(plugin, section) "
+                   "so that specifications can speak about it; each digest is called at most once per load); what it raises propagates",
+                   result=ANYT, emits=emits, has_events=True, raises={"BaseException": lambda c, exc, **k: True},
+                   ensures=lambda c, self, section, result: result.t == DIGRES(self.t, section.t))
 
 
 _dc = _digest_contract()
@@ -83,6 +94,7 @@ class load_configuration:
             "in-plugin-order-with-exactly-the-sections-content": c.Implies(
                 c.And(0 <= j0, j0 < n, present(cfg, plugins, j0)),
                 ev == c.event("digest", plugins[j0].digest, cfg[plugins[j0].section])),
+            "non-None-results-are-kept-under-their-plugin": c.Implies(c.And(0 <= j0, j0 < n, present(cfg, plugins, j0)), kept(c, cfg, plugins, result, j0)),
         }
 
     def _cfgerr(c, config_data, plugins, exc):
@@ -120,6 +132,7 @@ def _inv(c, L, i):
             c.And(z3.Select(c.tr, c.tr_old_len + z3.ToInt(cnt.upto(j0).r)) == c.event("digest", plugins[j0].digest, cfg[plugins[j0].section]),
                   cnt.upto(j0 + 1).r == cnt.upto(j0).r + 1, cnt.upto(j0 + 1).r <= cnt.upto(i).r))),
         "config-not-modified": c.ctx.rd(c.new_heap, "$mhas")[L.config_data.id] == c.ctx.rd(c.old_heap, "$mhas")[L.config_data.id],
+        "non-None-results-so-far-are-kept": c.for_each("j1", lambda j1: c.Implies(c.And(0 <= j1, j1 < i, present(cfg, plugins, j1)), kept(c, cfg, plugins, L.content, j1))),
     }
 
 
